@@ -75,11 +75,15 @@ def log_term(pairs):
     return "[" + "; ".join("(%s, %s)" % (cfs(x), cfs(y)) for x, y in seen.values()) + "]"
 
 
+_UID = 0
 EPS = "(0x1.9f623d5a8a732p-107)%float"     # 1e-32
 
 
-def metric_term(label, F, n_remove, exp, logs=None, mnn0=None, engine="compiled"):
+def metric_term(label, F, n_remove, exp, logs=None, argpart=None, engine="compiled"):
+    """returns a bool term, or (term, aux) for the compiled kernels: aux['oob'] = the model predicts a memory error at a
+    site of a known finding, aux['dup'] = the model saw a duplicated neighbour (known mnn finding)"""
     Fm = cfmat(F)
+    ex = "false" if exp is None else "flist_same d %s" % cfl(exp)
     if label == "cd":
         inner = "(fun F => Some (calc_crowding_distance (X:=Fx) F))"; fd = "false false"
     elif label == "ce":
@@ -89,8 +93,21 @@ def metric_term(label, F, n_remove, exp, logs=None, mnn0=None, engine="compiled"
     elif engine == "fallback" and label == "pcd":
         inner = "(fun F => Some (fallback_pcd (X:=Fx) F (%d)%%Z))" % n_remove; fd = "true false"
     else:
-        return None
-    return "match functional_diversity (X:=Fx) %s %s %s %s with Some d => flist_same d %s | None => false end" % (EPS, fd, inner, Fm, cfl(exp))
+        if label == "pcd":
+            inner = "(fun F => match kernel_pcd (X:=Fx) F (%d)%%Z with Ok d => Ok (d, (false, false)) | Err e => Err e end)" % n_remove; fd = "true false"
+        else:
+            m0 = czl(np.asarray(argpart[-1]).ravel()) if argpart else "[]%Z"
+            inner = "(fun F => kernel_mnn (X:=Fx) %s F (%d)%%Z %s)" % ("true" if label == "2nn" else "false", n_remove, m0); fd = "true true"
+        global _UID
+        _UID += 1
+        v = "kr%d" % _UID
+        prelude = "Definition %s := Eval vm_compute in (functional_diversity_res (X:=Fx) %s %s %s %s)." % (v, EPS, fd, inner, Fm)
+        term = "match %s with Ok (d, _) => %s | Err _ => false end" % (v, ex)
+        aux = {"oob": "match %s with Err (OOB s) => known_oob_site s | Ok (_, (_, ob)) => ob | _ => false end" % v,
+               "dup": "match %s with Ok (_, (b, _)) => b | Err _ => false end" % v,
+               "modelok": "match %s with Ok _ => true | Err _ => false end" % v}
+        return prelude, term, aux
+    return "match functional_diversity (X:=Fx) %s %s %s %s with Some d => %s | None => false end" % (EPS, fd, inner, Fm, ex)
 
 
 # ---- reference definitions (independent of NumPy tricks) ----
@@ -180,3 +197,94 @@ class EngineProc:
             except Exception:
                 self.p.kill()
         self.p = None
+
+
+def _extremes(F):
+    ext = set()
+    for m in range(F.shape[1]):
+        ext.add(int(np.argmin(F[:, m]))); ext.add(int(np.argmax(F[:, m])))
+    return ext
+
+
+def _clamp(n_remove, N, M):
+    if n_remove <= N - M:
+        return max(n_remove, 0)
+    return N - M
+
+
+def ref_ce(F):
+    F = np.asarray(F, dtype=float); n, M = F.shape
+    ce = np.zeros(n)
+    for m in range(M):
+        order = sorted(range(n), key=lambda i: F[i, m]); rng_ = F[order[-1], m] - F[order[0], m]
+        if rng_ == 0:
+            continue
+        for pos, i in enumerate(order):
+            if pos == 0 or pos == n - 1:
+                ce[i] = math.inf; continue
+            dl = F[i, m] - F[order[pos - 1], m]; du = F[order[pos + 1], m] - F[i, m]; c = dl + du
+            pl, pu = dl / c, du / c
+            e = -(pl * math.log2(pl) + pu * math.log2(pu))
+            ce[i] += c * e / rng_
+    return ce
+
+
+def _greedy(F, n_remove, score):
+    """drop the unique minimum, recompute everything from scratch, n_remove-1 times; None if a minimum is tied"""
+    F = np.asarray(F, dtype=float); N, M = F.shape
+    nr = _clamp(n_remove, N, M)
+    ext = _extremes(F)
+    den = F.max(axis=0) - F.min(axis=0); den[den == 0] = 1.0
+    Xn = (F - F.min(axis=0)) / den
+    H = list(range(N)); d = np.full(N, np.inf)
+    def evaluate():
+        vals = score(Xn, H)
+        for i, v in zip(H, vals):
+            d[i] = np.inf if i in ext else v
+    evaluate()
+    for _ in range(max(nr - 1, 0)):
+        dh = [d[i] for i in H]; mn = min(dh)
+        if sum(1 for v in dh if v == mn) != 1 or not np.isfinite(mn):
+            return None
+        H.remove(H[dh.index(mn)])
+        evaluate()
+    return d
+
+
+def _score_mnn(K):
+    def f(Xn, H):
+        out = []
+        for i in H:
+            ds = sorted(float(((Xn[i] - Xn[j]) ** 2).sum()) for j in H if j != i)
+            out.append(float(np.prod(ds[:K])) if len(ds) >= K else np.inf)
+        return out
+    return f
+
+
+def _score_cd(Xn, H):
+    M = Xn.shape[1]; out = {i: 0.0 for i in H}
+    for m in range(M):
+        order = sorted(H, key=lambda i: Xn[i, m])
+        for pos, i in enumerate(order):
+            if 0 < pos < len(order) - 1:
+                out[i] += (Xn[order[pos + 1], m] - Xn[order[pos - 1], m]) / M
+            else:
+                out[i] = np.inf
+    return [out[i] for i in H]
+
+
+def reference(label, F, n_remove):
+    """published definitions; None when not applicable (short fronts, tied drop order)"""
+    F = np.asarray(F, dtype=float); N, M = F.shape
+    if label == "cd":
+        return ref_cd(F)
+    if label == "ce":
+        return ref_ce(F)
+    K = 2 if label == "2nn" else M
+    if label in ("mnn", "2nn"):
+        if N <= M or N <= K:
+            return np.full(N, np.inf)
+        return _greedy(F, n_remove, _score_mnn(K))
+    if label == "pcd":
+        return _greedy(F, n_remove, _score_cd)
+    return None
